@@ -6,6 +6,8 @@ import re
 from fractions import Fraction
 
 REGISTRY = []
+import os as _os
+DEPTH = 5 if _os.environ.get("PYVC_TIER") == "thorough" else 1      # thorough tier: 5x the generated programs / seeds
 
 
 def replayer(pattern):
@@ -91,8 +93,46 @@ def candidate_sequences(n, rng, extra=()):
     return seqs
 
 
+def tally_totality_sweep():
+    """BOUNDED: every query of Tally/Counter on histories of length 0..6 (equal values, extreme magnitudes) with every
+    argument incl. rounding-sensitive confidence levels: returns (value or NaN), never raises."""
+    from pydsol.core.statistics import Tally, Counter, EventBasedTally
+    rng = random.Random(11)
+    alphas = [0.0, 5e-324, 1e-300, 1e-17, 2.0 ** -53, 2.0 ** -52, 1e-10, 0.05, 0.5, 0.95, 1.0 - 2.0 ** -53, 1.0]
+    for cls in (Tally, EventBasedTally):
+        for k in range(0, 7):
+            for seq in candidate_sequences(k, rng):
+                t = cls("sweep")
+                for x in seq:
+                    t.register(x)
+                calls = [("n", ()), ("sum", ()), ("min", ()), ("max", ()), ("mean", ())]
+                for m in ("variance", "stdev", "skewness", "kurtosis", "excess_kurtosis"):
+                    calls += [(m, ()), (m, (True,)), (m, (False,))]
+                calls += [("confidence_interval", (a,)) for a in alphas]
+                for m, args in calls:
+                    try:
+                        r = getattr(t, m)(*args)
+                    except Exception as e:
+                        return {"class": cls.__name__, "observations": seq, "call": m, "args": list(args),
+                                "failure": "%s(%s) raised %s: %s" % (m, ", ".join(map(repr, args)), type(e).__name__, e)}
+                    vals = r if isinstance(r, tuple) else (r,)
+                    if not all(isinstance(v, (int, float)) for v in vals):
+                        return {"class": cls.__name__, "observations": seq, "call": m, "args": list(args),
+                                "failure": "%s returned %r (not a number / NaN)" % (m, r)}
+    c = Counter("sweep")
+    for x in (0, -3, 10 ** 30, True):
+        c.register(x)
+    if (c.n(), c.count()) != (4, 10 ** 30 - 2):
+        return {"class": "Counter", "failure": "counter reports %r" % ((c.n(), c.count()),)}
+    return None
+
+
 @replayer(r"(Tally|EventBasedTally|SimTally)\.(skewness|kurtosis|excess_kurtosis|variance|stdev|mean|confidence_interval|min|max|sum|n)")
 def replay_tally_getter(rec):
+    if rec.get("obligation") == "bounded-sweep":
+        f = tally_totality_sweep()
+        return {"reproduced": bool(f), "input": f, "observed": f["failure"] if f else None,
+                "note": "all queries total on the swept histories"}
     from pydsol.core.statistics import Tally
     rng = random.Random(1)
     meth = rec["function"].split(".")[1]
@@ -1079,8 +1119,11 @@ def simulator_search(rounds=60, seed=0):
     for r in range(rounds):
         prog, init, fails = gen_program()
         exp = reference(prog, init, fails)
-        for mode in ("start", "segments", "steps"):
+        for mode in ("start", "segments", "steps", "pause"):
             strategy = rng.choice([ErrorStrategy.LOG_AND_CONTINUE, ErrorStrategy.WARN_AND_CONTINUE])
+            if mode == "pause":
+                strategy = ErrorStrategy.WARN_AND_PAUSE
+            want = list(exp)
             trace, handles, refused = [], [], []
 
             class M(DSOLModel):
@@ -1142,8 +1185,27 @@ def simulator_search(rounds=60, seed=0):
                     if mode == "start":
                         sim.start()
                         _wait_quiescent(sim)
+                    elif mode == "pause":
+                        # warn-and-pause: the run stops immediately after every failing event; resuming runs the rest
+                        for _ in range(60):
+                            try:
+                                sim.start()
+                            except DSOLError:
+                                # paused exactly at the replication end: the documented start rule (clock before the end)
+                                # refuses; only events of the end instant can remain -- not counted against the property
+                                if sim.simulator_time >= END and all(t >= END for t, _ in exp[len(trace):]):
+                                    want = exp[:len(trace)]
+                                break
+                            _wait_quiescent(sim)
+                            if sim.replication_state in (ReplicationState.ENDED, ReplicationState.ENDING):
+                                break
+                            cuts.append(("paused after", trace[-1] if trace else None))
+                            if not trace or trace[-1][1] not in fails or trace != exp[:len(trace)]:
+                                return {"program": prog, "initial": init, "failing_tags": sorted(fails), "mode": mode,
+                                        "failure": "warn-and-pause: the run paused with executed trace %s (reference %s); the last executed "
+                                                   "event must be the failing one and nothing after it may have run" % (trace[-6:], exp[:len(trace) + 2][-8:])}
                     elif mode == "segments":
-                        pts = sorted(rng.sample([0.5, 1.0, 2.0, 3.5, 5.0, 7.5, 9.0], rng.randrange(1, 4)))
+                        pts = sorted(rng.sample([0.5, 1.0, 2.0, 3.5, 5.0, 7.5, 9.0, 10.0, 10.0], rng.randrange(1, 4)))
                         for c in pts:
                             if c <= sim.simulator_time:
                                 continue
@@ -1151,11 +1213,25 @@ def simulator_search(rounds=60, seed=0):
                             cuts.append((c, incl))
                             (sim.run_up_to_including if incl else sim.run_up_to)(c)
                             _wait_quiescent(sim)
+                            if c >= END:
+                                # a bounded run to the replication end: ends the replication; the exclusive variant leaves the
+                                # events scheduled exactly at the end unexecuted
+                                want_end = [e for e in exp if e[0] < END or incl]
+                                if sim.simulator_time != END or trace != want_end:
+                                    return {"program": prog, "initial": init, "failing_tags": sorted(fails), "mode": mode, "cuts": cuts,
+                                            "failure": "%s(%r) at the replication end: clock %r, executed %s; expected clock %r and %s"
+                                                       % ("run_up_to_including" if incl else "run_up_to", c, sim.simulator_time, trace[-6:], END, want_end[-6:])}
+                                want = want_end
+                                break
                             if sim.replication_state not in (ReplicationState.STARTED,):
                                 return {"program": prog, "initial": init, "cuts": cuts, "failure": "bounded run to %r left replication state %s (not resumable)" % (c, sim.replication_state)}
                             if sim.simulator_time != c:
                                 return {"program": prog, "initial": init, "cuts": cuts, "failure": "clock %r after bounded run to %r" % (sim.simulator_time, c)}
-                        sim.start()
+                        try:
+                            sim.start()
+                        except DSOLError:
+                            if not (cuts and cuts[-1][0] >= END):
+                                raise
                         _wait_quiescent(sim)
                     else:
                         for _ in range(200):
@@ -1177,7 +1253,6 @@ def simulator_search(rounds=60, seed=0):
                     pass
             if refused:
                 return {"program": prog, "initial": init, "failure": refused[0]}
-            want = exp if mode != "steps" else exp
             if mode == "steps":
                 # stepping stops when the clock reaches the end; events AT the end are still within it
                 if trace != exp[:len(trace)] or any(t > END for t, _ in trace):
@@ -1237,7 +1312,7 @@ def reinit_search(rounds=40, seed=0, witness=None):
                     self.pers = SimPersistent("pers", "p", self.simulator)
                     self.pers.listen_to(self.source, StatEvents.TIMESTAMP_DATA_EVENT)
                 for (t, prio, tag) in prog["initial"]:
-                    self.simulator.schedule_event_abs(t, self, "h", prio, tag=tag)
+                    self.simulator.schedule_event_abs(prog["start"] + t, self, "h", prio, tag=tag)
 
             def h(self, tag):
                 try:
@@ -1301,7 +1376,9 @@ def reinit_search(rounds=40, seed=0, witness=None):
                                  for _ in range(rng.randrange(0, 3))] for t in range(n - 1)},
                 "reinit_from": {t for t in range(n) if rng.random() < 0.15},
                 "fails": {t for t in range(n) if rng.random() < 0.2}, "arm": [False],
-                "repl": lambda: SingleReplication("r", 0.0, 2.0, 10.0)}
+                "start": rng.choice([0.0, 0.0, 5.0, 100.0])}
+        # replication start S, warm-up period 2.0 (warm-up time S + 2.0), run length 10.0
+        prog["repl"] = (lambda S: (lambda: SingleReplication("r", S, 2.0, 10.0)))(prog["start"])
         # a model that is itself the data source keeps the statistics of earlier replications subscribed; a stale
         # SimPersistent then rejects the new replication's timestamps (known finding, probed separately by `witness`)
         prog["own_producer"] = rng.random() < 0.4
@@ -1337,7 +1414,7 @@ def reinit_search(rounds=40, seed=0, witness=None):
                             except DSOLError:
                                 break
                     elif history == "paused":
-                        c = rng.choice([0.5, 1.0, 2.0, 3.0, 6.0])
+                        c = prog["start"] + rng.choice([0.5, 1.0, 2.0, 3.0, 6.0])
                         detail = "paused by run_up_to(%r)" % c
                         sim.run_up_to(c)
                         _wait_quiescent(sim)
@@ -1369,19 +1446,33 @@ def reinit_search(rounds=40, seed=0, witness=None):
         progd = {k: (sorted(v) if isinstance(v, set) else v) for k, v in prog.items() if k not in ("repl", "arm")}
         if m.refused or ref_m.refused:
             return {"program": progd, "history": detail, "failure": (m.refused or ref_m.refused)[0]}
-        if got["clock_at_start"] != 0.0:
-            return {"program": progd, "history": detail, "failure": "clock %r after initialize (replication start 0.0)" % (got["clock_at_start"],)}
+        S = prog["start"]
+        if got["clock_at_start"] != S:
+            return {"program": progd, "history": detail, "failure": "clock %r after initialize (replication start %r)" % (got["clock_at_start"], S)}
         # absolute oracle (also C11): the statistics hold exactly the observations made at or after the warm-up time 2.0
         # (model events at the warm-up instant have a lower priority than the warm-up event, so they come after it)
         for label, o in (("brand-new simulator", ref), ("simulator with history '%s'" % detail, got)):
-            xs = [x for (t, _tag, x) in o["trace"] if t >= 2.0]
+            xs = [x for (t, _tag, x) in o["trace"] if t >= S + 2.0]
             want_t = (len(xs), float(sum(xs)) if xs else 0.0, float(min(xs)) if xs else None, float(max(xs)) if xs else None)
             have_t = (o["tally"][0], float(o["tally"][1]), None if o["tally"][0] == 0 else float(o["tally"][2]),
                       None if o["tally"][0] == 0 else float(o["tally"][3]))
             if have_t != want_t or o["counter"] != (len(xs), sum(xs)):
                 return {"program": progd, "history": detail,
                         "failure": "on the %s the tally (n, sum, min, max) is %s and the counter %s; the observations at or after the "
-                                   "warm-up time 2.0 are %s" % (label, have_t, o["counter"], xs)}
+                                   "warm-up time %r are %s" % (label, have_t, o["counter"], S + 2.0, xs)}
+            if prog["persistent"] and "persistent" in o:
+                # time average of the piecewise-constant signal from the first observation at or after warm-up to the end
+                obs = [(t, float(x)) for (t, _tag, x) in o["trace"] if t >= S + 2.0]
+                if obs and S + 10.0 > obs[0][0]:
+                    ts = [t for t, _ in obs] + [S + 10.0]
+                    area = sum(v * (ts[i + 1] - ts[i]) for i, (_, v) in enumerate(obs))
+                    mean = area / (S + 10.0 - obs[0][0])
+                    _n, wsum, wmean = o["persistent"]
+                    if not (abs(wsum - area) <= 1e-9 * max(1.0, abs(area)) and abs(wmean - mean) <= 1e-9 * max(1.0, abs(mean))):
+                        return {"program": progd, "history": detail,
+                                "failure": "on the %s the persistent statistic reports weighted sum %r and mean %r; the time integral of its "
+                                           "signal from the first observation after warm-up (%r) to the replication end is %r, the time "
+                                           "average %r" % (label, wsum, wmean, obs[0][0], area, mean)}
         for k in ref:
             if repr(got[k]) != repr(ref[k]):
                 return {"program": progd, "history": detail,
@@ -1392,7 +1483,7 @@ def reinit_search(rounds=40, seed=0, witness=None):
 
 REINIT_WITNESS = {"history": "ended",
                   "program": {"seed": 7, "persistent": True, "own_producer": True, "initial": [(1.0, 5, 0), (3.0, 5, 0), (6.0, 5, 0)],
-                              "children": {}, "reinit_from": set(), "fails": set()}}
+                              "children": {}, "reinit_from": set(), "fails": set(), "start": 0.0}}
 
 
 @replayer(r"(DEVSSimulator|Simulator)\.(initialize|cleanup)(\[.*\])?|EventListHeap\.clear|DSOLModel\.(add|get)_output_statistic")
@@ -1402,16 +1493,224 @@ def replay_reinit(rec):
         if f:
             return {"reproduced": True, "input": f, "observed": f["failure"]}
         return {"reproduced": False, "note": "the witness program runs its second replication like the first"}
-    for seed in range(2):
+    for seed in range(2 * DEPTH):
         f = reinit_search(seed=seed)
         if f:
             return {"reproduced": True, "input": f, "observed": f["failure"]}
     return {"reproduced": False, "note": "no history / model program found whose second replication differs (80 generated programs x 6 histories)"}
 
 
+def lifecycle_search(rounds=60, seed=0):
+    """BOUNDED: random command sequences (initialize, start, step, bounded runs, end_replication, re-initialize) issued at
+    quiescence on the real simulator; oracle = the protocol clauses of C04 that need no reference model: a command
+    raises nothing but DSOLError; a refused command changes nothing and notifies nobody; START_REPLICATION once and
+    first; START/STOP strictly alternate; TIME_CHANGED times non-decreasing; WARMUP at most once, at the warm-up time;
+    END_REPLICATION once and last, then ENDED, start/step/stop refused and the run thread gone."""
+    import io
+    import contextlib
+    import threading
+    import time as _t
+    from pydsol.core.simulator import DEVSSimulatorFloat, RunState, ReplicationState
+    from pydsol.core.model import DSOLModel
+    from pydsol.core.experiment import SingleReplication
+    from pydsol.core.pubsub import EventListener
+    from pydsol.core.interfaces import ReplicationInterface, SimulatorInterface
+    from pydsol.core.utils import DSOLError
+    rng = random.Random(500 + seed)
+    TYPES = (ReplicationInterface.START_REPLICATION_EVENT, SimulatorInterface.START_EVENT, SimulatorInterface.STOP_EVENT,
+             SimulatorInterface.TIME_CHANGED_EVENT, ReplicationInterface.WARMUP_EVENT, ReplicationInterface.END_REPLICATION_EVENT)
+
+    class Rec(EventListener):
+        def __init__(self):
+            self.got = []
+
+        def notify(self, event):
+            self.got.append((event.event_type.name, getattr(event, "timestamp", None)))
+
+    class M(DSOLModel):
+        def __init__(self, sim, times):
+            super().__init__(sim)
+            self.times = times
+
+        def construct_model(self):
+            for t in self.times:
+                self.simulator.schedule_event_abs(t, self, "h")
+
+        def h(self):
+            pass
+
+    def grammar(got, warm):
+        names = [n for n, _ in got]
+        if "START_EVENT" in names and (names.count("START_REPLICATION_EVENT") != 1 or names[0] != "START_REPLICATION_EVENT"):
+            return "START_REPLICATION_EVENT is not 'once and first' in %s" % names[:8]
+        ss = [n for n in names if n in ("START_EVENT", "STOP_EVENT")]
+        for i, n in enumerate(ss):
+            if n != ("START_EVENT" if i % 2 == 0 else "STOP_EVENT"):
+                return "START/STOP notifications do not alternate: %s" % ss
+        tc = [t for n, t in got if n == "TIME_CHANGED_EVENT"]
+        if any(b < a for a, b in zip(tc, tc[1:])):
+            return "TIME_CHANGED times decrease: %s" % tc
+        w = [t for n, t in got if n == "WARMUP_EVENT"]
+        if len(w) > 1 or (w and w[0] != warm):
+            return "WARMUP notified %d times at %s (warm-up time %r)" % (len(w), w, warm)
+        if names.count("END_REPLICATION_EVENT") > 1 or ("END_REPLICATION_EVENT" in names and names[-1] != "END_REPLICATION_EVENT"):
+            return "END_REPLICATION is not 'once and last' in %s" % names[-8:]
+        return None
+
+    for rnd in range(rounds):
+        times = sorted(rng.choice([0.0, 1.0, 2.0, 2.0, 3.5, 5.0, 5.0, 7.0, 9.0, 10.0]) for _ in range(rng.randrange(1, 7)))
+        warm, end = 2.0, 10.0
+        name = "lc%d_%d" % (seed, rnd)
+        sim = DEVSSimulatorFloat(name)
+        m = M(sim, times)
+        out = io.StringIO()
+        log = []
+        rec = None
+        try:
+            with contextlib.redirect_stdout(out), contextlib.redirect_stderr(out):
+                cmds = ["initialize"] + [rng.choice(["start", "step", "step", "run_up_to", "run_up_to_including", "end_replication",
+                                                     "stop", "initialize"]) for _ in range(rng.randrange(2, 8))]
+                for c in cmds:
+                    arg = rng.choice([0.5, 2.0, 3.5, 5.0, 10.0, 12.0, -1.0]) if c.startswith("run_up_to") else None
+                    ended = sim.replication_state in (ReplicationState.ENDED, ReplicationState.ENDING)
+                    if c == "end_replication" and (ended or sim.run_state == RunState.NOT_INITIALIZED):
+                        continue
+                    before = (sim.run_state, sim.replication_state, sim.simulator_time, sim.eventlist().size(), len(rec.got) if rec else 0)
+                    log.append((c, arg))
+                    try:
+                        if c == "initialize":
+                            sim.initialize(m, SingleReplication("r", 0.0, warm, end))
+                            rec = Rec()
+                            for et in TYPES:
+                                sim.add_listener(et, rec)
+                        elif arg is not None:
+                            getattr(sim, c)(arg)
+                        else:
+                            getattr(sim, c)()
+                        refused = False
+                    except DSOLError:
+                        refused = True
+                    except Exception as e:
+                        return {"events": times, "commands": log, "failure": "%s raised %s: %s" % (c, type(e).__name__, e)}
+                    _wait_quiescent(sim)
+                    if c == "end_replication":
+                        t0 = _t.time()
+                        while sim.run_state != RunState.ENDED and _t.time() - t0 < 2.0:
+                            _t.sleep(0.01)
+                    if refused:
+                        after = (sim.run_state, sim.replication_state, sim.simulator_time, sim.eventlist().size(), len(rec.got) if rec else 0)
+                        if after != before:
+                            return {"events": times, "commands": log,
+                                    "failure": "refused %s changed (run state, replication state, clock, pending, notifications) from %s to %s" % (c, before, after)}
+                        if ended and c in ("start", "step", "stop") is False:
+                            pass
+                    elif ended and c in ("start", "step", "stop", "run_up_to", "run_up_to_including"):
+                        return {"events": times, "commands": log, "failure": "%s was accepted after the replication had ended" % c}
+                    if c == "end_replication" and (sim.run_state != RunState.ENDED or sim.replication_state != ReplicationState.ENDED):
+                        return {"events": times, "commands": log,
+                                "failure": "2 s after end_replication() the simulator reports %s / %s instead of ENDED" % (sim.run_state, sim.replication_state)}
+                    g = grammar(rec.got, warm) if rec else None
+                    if g:
+                        return {"events": times, "commands": log, "failure": g}
+                    if sim.replication_state == ReplicationState.ENDED:
+                        if sim.run_state != RunState.ENDED:
+                            return {"events": times, "commands": log, "failure": "replication ENDED but run state %s" % sim.run_state}
+                        if [n for n, _ in rec.got].count("END_REPLICATION_EVENT") != 1:
+                            return {"events": times, "commands": log, "failure": "replication ENDED but END_REPLICATION notified %d times"
+                                    % [n for n, _ in rec.got].count("END_REPLICATION_EVENT")}
+                        t0 = _t.time()
+                        while any(th.name == name and th.is_alive() for th in threading.enumerate()) and _t.time() - t0 < 2.0:
+                            _t.sleep(0.01)
+                        if any(th.name == name and th.is_alive() for th in threading.enumerate()):
+                            return {"events": times, "commands": log, "failure": "the run thread is still alive 2 s after the replication ended"}
+        finally:
+            try:
+                with contextlib.redirect_stdout(out):
+                    sim.cleanup()
+            except Exception:
+                pass
+    return None
+
+
+def illegal_scheduling_sweep():
+    """BOUNDED: requests to schedule in the past / with a negative or NaN delay at rounding-sensitive clocks are refused
+    with DSOLError and leave the pending events unchanged (float and Duration clocks)."""
+    import io
+    import contextlib
+    from pydsol.core.simulator import DEVSSimulatorFloat, DEVSSimulatorDuration
+    from pydsol.core.model import DSOLModel
+    from pydsol.core.experiment import SingleReplication
+    from pydsol.core.units import Duration
+    from pydsol.core.utils import DSOLError
+    problems = []
+
+    def run(simcls, mk, clocks, delays, end):
+        class M(DSOLModel):
+            def construct_model(self):
+                for c in clocks:
+                    self.simulator.schedule_event_abs(mk(c), self, "probe")
+
+            def noop(self):
+                pass
+
+            def probe(self):
+                sim = self.simulator
+                now = sim.simulator_time
+                for d in delays:
+                    before = sim.eventlist().size()
+                    try:
+                        sim.schedule_event_rel(mk(d), self, "noop")
+                        problems.append("schedule_event_rel(%r) at clock %r was accepted" % (d, now))
+                    except DSOLError:
+                        if sim.eventlist().size() != before:
+                            problems.append("refused schedule_event_rel(%r) at clock %r changed the pending events" % (d, now))
+                    except Exception as e:
+                        problems.append("schedule_event_rel(%r) at clock %r raised %s instead of DSOLError" % (d, now, type(e).__name__))
+                for back in (1e-9, 1.0):
+                    t = now - mk(back) if not isinstance(now, float) else now - back
+                    if t == now:
+                        continue
+                    before = sim.eventlist().size()
+                    try:
+                        sim.schedule_event_abs(t, self, "noop")
+                        problems.append("schedule_event_abs(clock - %r) at clock %r was accepted" % (back, now))
+                    except DSOLError:
+                        if sim.eventlist().size() != before:
+                            problems.append("refused schedule_event_abs at clock %r changed the pending events" % (now,))
+        sim = simcls("sweep")
+        out = io.StringIO()
+        try:
+            with contextlib.redirect_stdout(out), contextlib.redirect_stderr(out):
+                sim.initialize(M(sim), SingleReplication("r", mk(0.0), mk(0.0), mk(end)))
+                sim.start()
+                _wait_quiescent(sim, 10.0)
+        finally:
+            try:
+                with contextlib.redirect_stdout(out):
+                    sim.cleanup()
+            except Exception:
+                pass
+    neg = [-5e-324, -1e-300, -1e-17, -1e-14, -1e-9, -0.5, -1.0, -1e300, float("nan"), float("-inf")]
+    run(DEVSSimulatorFloat, float, [0.0, 1.0, 1000.0, 1e15], neg, 1e16)
+    run(DEVSSimulatorDuration, lambda x: Duration(x, "s"), [0.0, 1000.0], [-1e-14, -1e-9, -1.0, float("nan")], 1e6)
+    if problems:
+        return {"failure": problems[0], "all": problems[:8]}
+    return None
+
+
 @replayer(r"(DEVSSimulator|Simulator|SimEvent)\..*")
 def replay_simulator(rec):
-    for seed in range(2):
+    if rec.get("obligation") == "bounded-sweep-lifecycle":
+        for seed in range(2 * DEPTH):
+            f = lifecycle_search(seed=seed)
+            if f:
+                return {"reproduced": True, "input": f, "observed": f["failure"]}
+        return {"reproduced": False, "note": "120 command sequences follow the protocol clauses"}
+    if rec.get("obligation") == "bounded-sweep-illegal-scheduling":
+        f = illegal_scheduling_sweep()
+        return {"reproduced": bool(f), "input": f, "observed": f["failure"] if f else None,
+                "note": "every illegal request refused with the pending events unchanged"}
+    for seed in range(2 * DEPTH):
         f = simulator_search(seed=seed)
         if f:
             return {"reproduced": True, "input": f, "observed": f["failure"]}
